@@ -17,7 +17,7 @@ RULE = ("Greenlets: every chain main <- G0 <- G1 <- G2 (length 1..3) with every 
         "thread (a non-main greenlet there, or that thread's MAIN greenlet while the thread runs in it, asked from this thread's main or a non-main greenlet; that thread's suspended and unstarted greenlets are extracted too) -> an error and no frames. This covers askers {outside, self, child, grandchild, parent}. Greenback: async/sync "
         "alternation depth 0..3 under trio (await_ given coroutines, and given non-coroutine awaitables) with the extraction taken from outside (callback while the task is blocked) and from "
         "inside (innermost sync or async function): the user functions must appear exactly once each, in call order, and no "
-        "visible frame may belong to await_, _greenback_shim or trampoline. evaluations = extractions checked; "
+        "visible frame may belong to await_, _greenback_shim or trampoline. The same towers under asyncio, where at one chosen level (each level in turn, or none) the task is cancelled while waiting and swallows the cancellation before going deeper, so that this level's bridge last resumed its coroutine by throwing an exception into it: besides the user functions only greenback's coroutine wrapper may be visible. evaluations = extractions checked; "
         "distinct_nontrivial = distinct (chain, depths, ask point, target) / (alternation depth, leaf kind, vantage).")
 ASSUMPTIONS = ["CPython only (a greenlet's outermost frame has f_back None)", "greenback's own coroutine wrapper frames (greenback_shim, adapt_awaitable) are not required to be hidden"]
 
@@ -319,6 +319,103 @@ def run_greenback(k, leaf, vantage, wrap=False):
     return problems, 1
 
 
+def run_greenback_asyncio(k, leaf, vantage, throw_at):
+    """The same towers under asyncio, where a task is resumed by THROWING into its coroutine when it is cancelled:
+    at level `throw_at` (None = never) the async function a<j> waits, is cancelled, swallows the cancellation and only
+    then goes deeper - so the bridge at that level last drove its coroutine with an exception, not with a value."""
+    import asyncio
+    import greenback
+    import stackscope
+    problems = []
+    results = []
+
+    def snap(task):
+        with warnings.catch_warnings(record=True) as w:
+            warnings.simplefilter("always")
+            results.append((stackscope.extract(task.get_coro()), [str(x.message)[:80] for x in w]))
+
+    def take_inside():
+        snap(asyncio.current_task())
+
+    async def park_and_report():
+        loop = asyncio.get_running_loop()
+        task = asyncio.current_task()
+        fut = loop.create_future()
+
+        def report_back():
+            snap(task)
+            fut.set_result(None)
+        loop.call_soon(report_back)
+        await fut
+
+    async def dance():
+        loop = asyncio.get_running_loop()
+        task = asyncio.current_task()
+        fut = loop.create_future()
+        loop.call_soon(task.cancel)
+        try:
+            await fut
+        except asyncio.CancelledError:
+            task.uncancel()
+        else:
+            raise AssertionError("the cancellation was not delivered")
+    ns = {"greenback": greenback}
+    lines = []
+    pre = lambda i: ("    await ctx['dance']()\n" if throw_at == i else "")
+    for i in range(k):
+        lines.append("async def a%d(ctx):\n%s    return s%d(ctx)\n" % (i, pre(i), i))
+        lines.append("def s%d(ctx):\n    return greenback.await_(a%d(ctx))\n" % (i, i + 1))
+    if leaf == "async":
+        if vantage == "outside":
+            lines.append("async def a%d(ctx):\n%s    await ctx['park']()\n" % (k, pre(k)))
+        else:
+            lines.append("async def a%d(ctx):\n%s    ctx['inside']()\n" % (k, pre(k)))
+        names = []
+        for i in range(k):
+            names += ["a%d" % i, "s%d" % i]
+        names.append("a%d" % k)
+    else:
+        lines.append("async def a%d(ctx):\n%s    return s%d(ctx)\n" % (k, pre(k), k))
+        if vantage == "outside":
+            lines.append("def s%d(ctx):\n    return greenback.await_(ctx['park']())\n" % k)
+        else:
+            lines.append("def s%d(ctx):\n    ctx['inside']()\n" % k)
+        names = []
+        for i in range(k + 1):
+            names += ["a%d" % i, "s%d" % i]
+    exec(compile("\n".join(lines), "<gba>", "exec"), ns)
+    ctx = {"park": park_and_report, "inside": take_inside, "dance": dance}
+
+    async def main():
+        await greenback.ensure_portal()
+        return await ns["a0"](ctx)
+    asyncio.run(main())
+    if len(results) != 1:
+        return ["harness: %d results" % len(results)], 0
+    st, warns = results[0]
+    if st.error is not None:
+        problems.append("error %r" % (st.error,))
+    if warns:
+        problems.append("warnings %r" % (warns,))
+    user_codes = dict((ns[n].__code__, n) for n in names)
+    user_codes[main.__code__] = "main"
+    if vantage == "outside":
+        user_codes[park_and_report.__code__] = "park_and_report"
+    vis = [f for f in st.frames if not f.hide]
+    seq = [user_codes[f.pyframe.f_code] for f in st.frames if f.pyframe.f_code in user_codes]
+    want = ["main"] + names + (["park_and_report"] if vantage == "outside" else [])
+    if seq != want:
+        problems.append("user frames %r, expected %r (all visible: %r)" % (seq, want, [f.funcname for f in vis]))
+    # every visible frame is a user frame, greenback's coroutine wrapper, or the harness function taking the snapshot
+    allowed_extra = ("greenback_shim", "_greenback_shim", "adapt_awaitable", "take_inside", "snap")
+    for f in vis:
+        if f.pyframe.f_code not in user_codes and f.funcname not in allowed_extra:
+            problems.append("bridging internal or foreign frame %s (%s) is visible; all visible: %r" % (
+                f.funcname, f.pyframe.f_code.co_filename.rsplit("/", 1)[-1], [x.funcname for x in vis]))
+            break
+    return problems, 1
+
+
 def greenlet_cases(maxd):
     for n in (1, 2, 3):
         for depths in itertools.product(range(1, maxd + 1), repeat=n):
@@ -336,6 +433,8 @@ def greenback_cases(maxk):
             for vantage in ("outside", "inside"):
                 for wrap in (False, True):
                     yield {"leg": "greenback", "k": k, "leaf": leaf, "vantage": vantage, "wrap": wrap}
+                for throw_at in [None] + list(range(k + 1)):
+                    yield {"leg": "greenback_asyncio", "k": k, "leaf": leaf, "vantage": vantage, "throw_at": throw_at}
 
 
 def do_case(case):
@@ -345,6 +444,8 @@ def do_case(case):
         return other_thread()
     if case["leg"] == "foreign_running":
         return foreign_running(case["asker"], case["nparked"], case["depth"])
+    if case["leg"] == "greenback_asyncio":
+        return run_greenback_asyncio(case["k"], case["leaf"], case["vantage"], case.get("throw_at"))
     return run_greenback(case["k"], case["leaf"], case["vantage"], case.get("wrap", False))
 
 
